@@ -1137,6 +1137,28 @@ class Effects:
         self._replacers[id(fn)] = out
         return out
 
+    def persistent_replacers(self, fn: FuncInfo, _busy=None) -> List[ast.AST]:
+        """Sites in ``fn`` after which the objective *stays* replaced for the rest of fn (not inside a
+        `with model` region of a callee, which undoes it before returning)."""
+        _busy = _busy or set()
+        if id(fn) in _busy:
+            return []
+        _busy.add(id(fn))
+        out: List[ast.AST] = []
+        for e in self.own_effects(fn):
+            if e.kind != "CALL" or e.note == "remote":
+                continue
+            callee = e.chain[0][0]
+            if (callee.short == "Model.objective" and callee.prop_kind == "setter") or callee.short == "set_objective":
+                out.append(e.node)
+            else:
+                sub = self.persistent_replacers(callee, _busy)
+                # a replacement inside the callee's own context is undone when the callee returns
+                sub = [n for n in sub if not self.with_regions(callee, n)]
+                if sub:
+                    out.append(e.node)
+        return out
+
     def dominated_by(self, fn: FuncInfo, site: ast.AST, blockers: Iterable[ast.AST]) -> bool:
         """Every path from the function entry to ``site`` passes one of ``blockers``."""
         g = self.flow.cfg(fn)
